@@ -39,6 +39,9 @@ def positions(G, L):
     return sorted(set(pos))
 
 
+SINK3 = [None]     # sink of the third observer of the environment built last (one environment at a time per process)
+
+
 def build(cfg):
     """Returns env, sinks, events (list of (time, key)), id->key map, grid."""
     reset_clock()
@@ -77,7 +80,9 @@ def build(cfg):
     tr = Transmitter(timesteps, folds={"training-set": list(fold)}, markov_reset=markov, warmup=warm)
     tr.add_events(list(evs))
     sink, sink2 = [], []
-    rec = Rec(sink, [OnlyCustom(sink2)])
+    sink3 = SINK3[0] = []
+    # the parent-class observer is created before its subclass
+    rec = Rec(sink, [OnlyCustom(sink2), CustomStepsQuotes(sink3)])
     env = TradingEnv(BoxPortfolio(contracts, -1, 1), transmitter=tr, state=rec, latency=L,
                      episode_length=cfg["eplen"])
     keyed = [(e.time, "e%d" % i) for i, e in enumerate(evs)]
@@ -223,7 +228,22 @@ def check_episode(env, sink, sink2, lo, lo2, plan, idmap, kinds, quotes, trace, 
     got2 = [e[1] for e in sink2[lo2:]]
     if exp2 != got2:
         msgs.append("single-type observer received %d custom events, all-type observer %d (or different order)" % (len(got2), len(exp2)))
+    # third observer: subclass of the second one, also subscribed to quotes and to the step notification
+    s3 = SINK3[0]
+    if s3 is not None:
+        mine = s3[LO3[0]:]
+        for tag, kind_name, marker in (("E", "Custom", "E"), ("Q", "EventNBBO", "E")):
+            exp3 = [e[1] for e in log if e[0] == marker and kinds.get(idmap.get(e[1])) == kind_name]
+            got3 = [e[1] for e in mine if e[0] == tag]
+            if exp3 != got3:
+                msgs.append("subclass observer received %d %s events, all-type observer %d (or different order)" % (len(got3), kind_name, len(exp3)))
+        nstep = sum(1 for e in log if e[0] == "Step")
+        if sum(1 for e in mine if e[0] == "Step") != nstep:
+            msgs.append("subclass observer received %d step notifications, all-type observer %d" % (sum(1 for e in mine if e[0] == "Step"), nstep))
     return msgs
+
+
+LO3 = [0]
 
 
 def run_config(cfg):
@@ -249,6 +269,7 @@ def run_config(cfg):
             start = 0
             plan = base_plan
         lo, lo2 = len(sink), len(sink2)
+        LO3[0] = len(SINK3[0])
         with ChoiceSeam(pick=start) as seam:
             state = {"after_reset": None}
             trace = {"calls": [], "error": None}
